@@ -1,6 +1,7 @@
 import ShootVerif.Proofs.RestSend
 import ShootVerif.Proofs.RestParse
 import ShootVerif.Proofs.RestKV
+import ShootVerif.Proofs.RestText
 import ShootVerif.Gen.Facts
 /-!
 C06 — rest: each call sends exactly the request its directive describes.
@@ -246,48 +247,120 @@ theorem C06_wf_methodOK (i : IfaceSpec) (calls : List Call) (h : region i calls 
     (m : MethodSpec) (hm : m ∈ i.methods) : MethodOK m := by
   obtain ⟨hs, _, _⟩ := region_wf i calls h
   simp only [structOk, shapeOk, Bool.and_eq_true, List.all_eq_true] at hs
-  have hmo := hs.1.1.1 m hm
-  simp only [methodShapeOk, Bool.and_eq_true, distinct, decide_eq_true_eq, List.all_eq_true,
-    Bool.not_eq_true', bne_iff_ne, ne_eq] at hmo
-  obtain ⟨⟨⟨⟨⟨⟨⟨⟨⟨hnames, hctx⟩, _⟩, _⟩, hak⟩, _⟩, hav⟩, hclean⟩, hph⟩, hfields⟩ := hmo
-  refine ⟨hnames, hctx, hak, ?_, ?_, ?_, ?_, ?_, ?_⟩
-  · intro kv hkv; simpa using hav kv hkv
-  · -- pathClean gives token cleanliness
-    simp only [pathClean, Bool.and_eq_true, List.all_eq_true] at hclean
-    intro t ht
-    have := hclean.2 t ht
-    cases t with
-    | lit c => simpa using this
-    | ph n => trivial
-  · intro n hn
-    have := hph n hn
-    simp only [placeholderOk, Bool.and_eq_true] at this
-    exact this.1
-  · intro n hn
-    have := hph n hn
-    simp only [placeholderOk, Bool.and_eq_true, List.any_eq_true, beq_iff_eq] at this
-    obtain ⟨q, hq, ⟨⟨hname, _⟩, _⟩⟩ := this.2
-    exact List.mem_map.2 ⟨q, hq, hname⟩
-  · intro p hp; exact (hfields p hp).1
-  · intro p hp f hf; simpa using (hfields p hp).2 f hf
+  exact methodOK_of_shape m (hs.1.1.1 m hm)
 
 /-- every call of such an interface satisfies `ArgsOK` -/
 theorem C06_wf_argsOK (i : IfaceSpec) (calls : List Call) (h : region i calls = "WF")
     (cl : Call) (hc : cl ∈ calls) (m : MethodSpec) (hm : findMethod i cl.method = some m) :
     ArgsOK m cl.args := by
-  obtain ⟨_, _, hnil⟩ := region_wf i calls h
-  constructor
-  intro hv p hp hsp hfs v ha
-  have : F_nilStructDeref i calls = true := by
-    simp only [F_nilStructDeref, List.any_eq_true]
-    refine ⟨cl, hc, ?_⟩
-    simp only [hm, hv, Bool.not_false, Bool.true_and, List.any_eq_true, Bool.and_eq_true]
-    refine ⟨p, hp, ⟨hsp, ?_⟩, ?_⟩
-    · cases hf : fieldsOf p with
-      | nil => exact absurd hf hfs
-      | cons a as => rfl
-    · simp [ha]
-  rw [hnil] at this; cases this
+  obtain ⟨_, _, hnil, _⟩ := region_wf i calls h
+  exact argsOK_of_wf i calls hnil cl hc m hm
+
+/-- inside the region cooking never fails: every method whose directives are read gets its tables
+    (no "unsupported param type", no "ambiguous body binding", no duplicate alias) -/
+theorem C06_cooked_total (i : IfaceSpec) (calls : List Call) (h : region i calls = "WF")
+    (m : MethodSpec) (hm : m ∈ i.methods) :
+    ∃ c subs, CookedFor m c ⟨m.verb, m.path, placeholders m.path⟩ subs := by
+  obtain ⟨hs, _, _⟩ := region_wf i calls h
+  simp only [structOk, shapeOk, Bool.and_eq_true, List.all_eq_true] at hs
+  exact cookParsed_ok m (hs.1.1.1 m hm) (hs.2 m hm)
+
+/-!
+## From the TEXT of the doc comments
+
+`methodDoc sp m` is `ast.CommentGroup.Text()` of a method's doc comment that spells the directives of `m`
+the way `sp` says (`shoot: <verb as written>(<path, quoted or not>)<tail>` and, if there are alias pairs,
+`shoot: alias={p:a},{q:b}<;tail>` on the next line); `SpellingOK` lists what is asked of the spelling
+(the verb in any letter case, a tail of non-word characters, alias keys of key characters, alias values
+without `}` `;` newline that do not start with a blank); that no path spells `alias=` literally is part of region WF
+(see F_aliasInPath);
+`HeaderDocFor hs doc`: the doc comment of the embedded `shoot.RestClient[T]` spells the header pairs.
+-/
+
+/-- the doc comment of a method, read by the recognisers `parsePath` and `parseAlias`/`parseKV`, is cooked
+    exactly as its meaning says — for every verb spelling, quoted or not, any alias pairs -/
+theorem C06_cook_text (sp : Spelling) (m : MethodSpec) (hsp : SpellingOK sp m)
+    (hpath : pathClean m.path = true) (hnoal : containsAliasEq m.path = false) (hnd : (keysOf m.alias).Nodup) :
+    cookMethod ⟨m.name, methodDoc sp m, m.params⟩ =
+      cookParsed ⟨m.verb, m.path, placeholders m.path⟩ m.alias m.params := cookMethod_text sp m hsp hpath hnoal hnd
+
+/-- the interface-level `headers=` directive, read by `parseHeaders`/`parseKV` from the doc text, is the written pairs -/
+theorem C06_headers_text (hs : List (String × String)) (doc : List Char) (h : HeaderDocFor hs doc) :
+    strKVs (parseHeaders doc) = hs := headers_text hs doc h
+
+/-- the interface-level glue of cookClient, for EVERY interface: a Fatal in any method ends the run; otherwise the
+    generated methods are — in declaration order — exactly the interface methods whose request directive is read, one
+    generated method each, built from that method's own doc comment and parameters and the interface's header
+    directive; the output compiles unless a pointer to a map is ranged over (Q5) or a method was skipped -/
+theorem C06_generate_closed (i : Iface) :
+    generate i =
+      if i.methods.any isFatal then .fatal
+      else
+        .ok (i.methods.filterMap (planOfMethod (setAll [] (strKVs (parseHeaders i.headersDoc)))))
+          (!(i.methods.filterMap (planOfMethod (setAll [] (strKVs (parseHeaders i.headersDoc))))).any
+              (fun p => !p.dict.isEmpty && p.dictIsPtr) &&
+            (i.methods.filterMap (planOfMethod (setAll [] (strKVs (parseHeaders i.headersDoc))))).length == i.methods.length) :=
+  generate_closed i
+
+/-- … so every method gets exactly one generated method: under distinct method names the generated method called
+    `md.name` is the one cooked from `md` -/
+theorem C06_method_one_plan (i : Iface) (plans : List Plan) (b : Bool) (h : generate i = .ok plans b)
+    (hnd : (i.methods.map (·.name)).Nodup) (md : Method) (hmem : md ∈ i.methods)
+    (c : Cooked) (d : PathDir) (s : List PathSub) (hc : cookMethod md = .ok c d s) :
+    plans.find? (fun pl => pl.name == md.name)
+      = some (planOf (setAll [] (strKVs (parseHeaders i.headersDoc))) md.name c d s) ∧
+    (plans.filter (fun pl => pl.name == md.name)).length = 1 := by
+  rw [generate_closed] at h
+  cases hf : i.methods.any isFatal with
+  | true => simp [hf] at h
+  | false =>
+    simp only [hf, Bool.false_eq_true, ↓reduceIte, GenRes.ok.injEq] at h
+    obtain ⟨hp, _⟩ := h
+    subst hp
+    have hfind := find_filterMap_plan (setAll [] (strKVs (parseHeaders i.headersDoc))) i.methods hnd md hmem c d s hc
+    refine ⟨hfind, ?_⟩
+    -- names of the generated methods are distinct and md.name is among them
+    have hnames := (rest_methods_nodup i _ _ (by rw [generate_closed, hf]; rfl)).2 hnd
+    have hin : md.name ∈ (i.methods.filterMap (planOfMethod (setAll [] (strKVs (parseHeaders i.headersDoc))))).map (·.name) := by
+      have := List.mem_of_find?_eq_some hfind
+      exact List.mem_map.2 ⟨_, this, rfl⟩
+    have hcount : ∀ (l : List Plan), (l.map (·.name)).Nodup → md.name ∈ l.map (·.name) →
+        (l.filter (fun pl => pl.name == md.name)).length = 1 := by
+      intro l
+      induction l with
+      | nil => intro _ hx; cases hx
+      | cons x xs ih =>
+        intro hnd hx
+        simp only [List.map_cons, List.nodup_cons] at hnd
+        by_cases e : x.name = md.name
+        · have : xs.filter (fun pl => pl.name == md.name) = [] := by
+            rw [List.filter_eq_nil_iff]
+            intro y hy hey
+            have : y.name = md.name := by simpa using hey
+            exact hnd.1 (e ▸ this ▸ List.mem_map.2 ⟨y, hy, rfl⟩)
+          simp [e, this]
+        · have hx' : md.name ∈ xs.map (·.name) := by
+            simp only [List.map_cons, List.mem_cons] at hx
+            rcases hx with hx | hx
+            · exact absurd hx.symm e
+            · exact hx
+          simp [e, ih hnd.2 hx']
+    exact hcount _ hnames hin
+
+/-- **the whole property from the TEXT of the doc comments.** For every interface of region WF whose doc comments
+    spell its directives in the documented form: the generator, reading only the text, produces a client that
+    compiles, and every call sends exactly one request — the directive's verb, the path with every placeholder
+    replaced by its alias-resolved argument, the query the property lists, the struct argument as body, the verb's
+    default headers overridden by the interface's `headers=` pairs, the caller's context. (C06_request is the same
+    statement from pre-parsed directives.) -/
+theorem C06_request_text (is : IfaceSpec) (calls : List Call) (hdoc : List Char) (spell : MethodSpec → Spelling)
+    (hwf : region is calls = "WF") (hh : HeaderDocFor is.headers hdoc)
+    (hsp : ∀ m ∈ is.methods, SpellingOK (spell m) m)
+    (cl : Call) (hcl : cl ∈ calls) (m : MethodSpec) (hm : findMethod is cl.method = some m) :
+    ∃ r, callModel (ifaceText hdoc spell is) cl.method cl.args = some (.sent r) ∧
+      r.verb = m.verb.upper ∧ r.path = specPath m cl.args ∧ r.query.getD [] = specQuery m cl.args ∧
+      r.body = specBody m ∧ (∀ k, getKV r.headers k = specHeader is.headers m.verb k) ∧ r.ctx = specCtx m cl.args :=
+  call_text is calls hdoc spell hwf hh hsp cl hcl m hm
 
 /-! ## Finding regions: concrete witnesses on which the unchanged code violates the property -/
 
@@ -366,6 +439,21 @@ theorem C06_F_nilStructDeref_witness :
     region wNilS [⟨"A", wNilArgs⟩] = "F_nilStructDeref" ∧
     callModel wNilI "A" wNilArgs = some .panic ∧
     callSpec wNilS "A" wNilArgs = some (.sent ⟨"GET", "/a".toList, some [], none, [("Accept", "application/json")], some "t"⟩) := by
+  decide
+
+/-- `parseAlias` takes the first `\Walias=` on any `shoot:` line: the segment `/alias=x` of the PATH is read as the alias
+    directive (no pairs), the alias line below is ignored, and `pageSize` travels under its Go name instead of `size` -/
+def wAliasI : Iface := ⟨[], [⟨"A", "shoot: Get(\"/a/alias=x\")\nshoot: alias={pageSize:size}\n".toList, [pCtx, pStr "pageSize"]⟩]⟩
+def wAliasS : IfaceSpec := ⟨[], [⟨"A", .get, "/a/alias=x".toList, [("pageSize", "size")], [pCtx, pStr "pageSize"]⟩]⟩
+def wAliasArgs : Args := [("ctx", .ctx "t"), ("pageSize", .scalar (.txt "5".toList))]
+
+theorem C06_F_aliasInPath_witness :
+    region wAliasS [⟨"A", wAliasArgs⟩] = "F_aliasInPath" ∧
+    aliasMapOf "shoot: Get(\"/a/alias=x\")\nshoot: alias={pageSize:size}\n".toList = [] ∧
+    callModel wAliasI "A" wAliasArgs
+      = some (.sent ⟨"GET", "/a/alias=x".toList, some [("pageSize", "5".toList)], none, [("Accept", "application/json")], some "t"⟩) ∧
+    callSpec wAliasS "A" wAliasArgs
+      = some (.sent ⟨"GET", "/a/alias=x".toList, some [("size", "5".toList)], none, [("Accept", "application/json")], some "t"⟩) := by
   decide
 
 /-- a POST with a struct body through a chain with RetryMiddleware: the request of the call, and what its
@@ -457,5 +545,29 @@ example : parsePath ("shoot: Get(\"/users/{id}\")\nshoot: alias={userID:id}\n".t
 example : parsePath ("shoot: pAtCh(/a b/{x}/{y_1}) ; \n".toList)
     = .ok ⟨.patch, "/a b/{x}/{y_1}".toList, ["x".toList, "y_1".toList]⟩ := by decide
 example : getKV (headersFor [("Accept", "text/plain"), ("X-A", "1"), ("Accept", "text/xml")] .post) "Accept" = some "text/xml" := by decide
+
+/-! non-vacuity of C06_request_text: the example interface as text -/
+def exSpell : MethodSpec → Spelling := fun _ => ⟨"gEt".toList, true, " ;".toList, "; page".toList⟩
+def exHdoc : List Char := "shoot: headers={X-Env:test}\n".toList
+
+example : ifaceText exHdoc exSpell exI = ⟨"shoot: headers={X-Env:test}\n".toList,
+    [⟨"GetUser", "shoot: gEt(\"/users/{id}/x\") ;\nshoot: alias={userID:id},{pageSize:size}; page\n".toList, exM.params⟩]⟩ := by decide
+example : SpellingOK (exSpell exM) exM := by
+  refine ⟨by decide, by decide, by decide, Or.inr ⟨_, rfl⟩, ?_⟩
+  intro kv hkv
+  simp only [exM, List.mem_cons, List.not_mem_nil, or_false] at hkv
+  rcases hkv with rfl | rfl
+  · exact ⟨⟨by decide, by decide⟩, ⟨⟨'i', ['d'], by decide, by decide⟩, by decide, by decide⟩, by decide⟩
+  · exact ⟨⟨by decide, by decide⟩, ⟨⟨'s', "ize".toList, by decide, by decide⟩, by decide, by decide⟩, by decide⟩
+example : HeaderDocFor exI.headers exHdoc := by
+  refine Or.inr ⟨[], [(("X-Env".toList, "test".toList), [])], [], [], ?_, ?_, ?_, by decide, by decide, by decide⟩
+  · intro c hc; cases hc
+  · refine ⟨by decide, ?_, ?_, ?_⟩
+    · intro g hg
+      simp only [List.mem_singleton] at hg; subst hg
+      exact ⟨⟨by decide, by decide⟩, ⟨⟨'t', "est".toList, by decide, by decide⟩, by decide, by decide⟩, by intro c hc; cases hc⟩
+    · intro g hg; simp only [List.mem_singleton] at hg; subst hg; intro c hc; cases hc
+    · intro g hg; simp only [List.getLast?_singleton, Option.some.injEq] at hg; subst hg; exact Or.inl rfl
+  · intro l hl; cases hl
 
 end ShootVerif.Rest
